@@ -197,7 +197,7 @@ def rule_narrowing(run, fx, rule, floors=True, roots=None, select=None, floor_n=
             run.ok(rule, "%s: %s as %s — operand in [%d, %d] by interval arithmetic" % (b.path, frm, to, iv[0], iv[1]))
             continue
         run.fail(rule, key, "lossy cast %s as %s in %s: the operand (%s) is not shown to fit; a value that does not fit is silently truncated" % (
-            frm, to, b.path, cl[1] if len(cl) > 1 else cl[0]), b.loc(s), ledger="narrowing")
+            frm, to, b.path, cl[1] if len(cl) > 1 else cl[0]), b.loc(s), ledger="narrowing", alt_keys=fx.alt_keys(b, key))
     if floors:
         run.floor(rule, "lossy integer casts examined", n, floor_n)
     return n
